@@ -120,6 +120,7 @@ pub fn values_for(vr: &'static str) -> Vec<(&'static str, PrimitiveValue, Vec<u8
             m("multi-odd", &["20200101", "19991231"]),
             ("typed", P::Date(C::from_elem(DicomDate::from_ymd(2020, 2, 29).unwrap(), 1)), b"20200229".to_vec()),
             ("typed-odd", P::Date(C::from_vec(vec![DicomDate::from_ym(2020, 2).unwrap(), DicomDate::from_y(1999).unwrap()])), b"202002\\1999".to_vec()),
+            ("typed-multi3", P::Date(C::from_vec(vec![DicomDate::from_ymd(2020, 2, 29).unwrap(), DicomDate::from_ymd(1999, 12, 31).unwrap(), DicomDate::from_y(1).unwrap()])), b"20200229\\19991231\\0001".to_vec()),
         ],
         "DS" => vec![
             empty,
@@ -146,6 +147,23 @@ pub fn values_for(vr: &'static str) -> Vec<(&'static str, PrimitiveValue, Vec<u8
                 )),
                 b"20200102030405".to_vec(),
             ),
+            (
+                "typed-multi",
+                P::DateTime(C::from_vec(vec![
+                    DicomDateTime::from_date_and_time(DicomDate::from_ymd(2020, 1, 2).unwrap(), DicomTime::from_hms(3, 4, 5).unwrap()).unwrap(),
+                    DicomDateTime::from_date_and_time(DicomDate::from_ymd(1999, 12, 31).unwrap(), DicomTime::from_hms(23, 59, 59).unwrap()).unwrap(),
+                ])),
+                b"20200102030405\\19991231235959".to_vec(),
+            ),
+            (
+                "typed-multi3",
+                P::DateTime(C::from_vec(vec![
+                    DicomDateTime::from_date(DicomDate::from_y(2020).unwrap()),
+                    DicomDateTime::from_date(DicomDate::from_ym(2021, 3).unwrap()),
+                    DicomDateTime::from_date_and_time(DicomDate::from_ymd(1999, 12, 31).unwrap(), DicomTime::from_hm(23, 59).unwrap()).unwrap(),
+                ])),
+                b"2020\\202103\\199912312359".to_vec(),
+            ),
         ],
         "IS" => vec![
             empty,
@@ -167,6 +185,7 @@ pub fn values_for(vr: &'static str) -> Vec<(&'static str, PrimitiveValue, Vec<u8
             m("multi", &["12", "1230"]),
             ("typed", P::Time(C::from_elem(DicomTime::from_hms(1, 2, 3).unwrap(), 1)), b"010203".to_vec()),
             ("typed-odd", P::Time(C::from_elem(DicomTime::from_hms_milli(1, 2, 3, 4).unwrap(), 1)), b"010203.004".to_vec()),
+            ("typed-multi", P::Time(C::from_vec(vec![DicomTime::from_hms(1, 2, 3).unwrap(), DicomTime::from_hm(23, 59).unwrap(), DicomTime::from_h(7).unwrap()])), b"010203\\2359\\07".to_vec()),
         ],
         "UC" => vec![empty, t("odd", "Abc"), t("even", "Ab"), m("multi", &["A", "BC"])],
         "UI" => vec![empty, t("odd", "1.2"), t("even", "1.23"), m("multi", &["1.2", "3.4"]), m("multi-even", &["1.2", "3.45"])],
